@@ -168,6 +168,43 @@ def variant_kwargs(path, cls, rng, base):
     return kw
 
 
+def refine_points(s, e, rng, t, A, ngrid=200):
+    """A plus points on both sides of the steepest changes of the returned fields (shocks, fronts,
+    interfaces), located numerically on a fine sorted grid over the entry's sampling range: a request
+    that does not straddle a discontinuity cannot show order- or batch-dependence of the branch test"""
+    if e.dim != 1:
+        return A
+    try:
+        G = np.array(sorted(set(np.asarray(e.points(rng, ngrid), dtype=float).tolist())))
+        sol = s(G, t)
+        if len(sol) != len(G):
+            return A
+        score = np.zeros(len(G) - 1)
+        with np.errstate(all='ignore'):
+            for nm in sol.dtype.names[1:]:
+                col = np.asarray(sol[nm])
+                if col.dtype.kind not in 'fiu':
+                    continue
+                col = col.astype(float)
+                scale = np.nanmax(np.abs(col))
+                if not np.isfinite(scale) or scale == 0:
+                    continue
+                score = np.fmax(score, np.abs(np.diff(col)) / scale)
+        med = float(np.nanmedian(score))
+        idx = [int(k) for k in np.argsort(-score)[:3] if score[k] > max(10 * med, 1e-3)]
+        extra = []
+        for k in idx:
+            a, b = float(G[k]), float(G[k + 1])
+            w = (float(G[-1]) - float(G[0])) * rng.uniform(0.01, 0.15)
+            extra += [a - rng.uniform(0, w), a, b, b + rng.uniform(0, w)]
+        extra = [x for x in extra if G[0] <= x <= G[-1]]
+        if not extra:
+            return A
+        return np.array(sorted(set(np.asarray(A, dtype=float).tolist() + extra)))
+    except Exception:
+        return A
+
+
 def build(path, cls, rng):
     """(solver, kwargs) for one catalogue construction"""
     e = entry(path)
